@@ -8,6 +8,8 @@ one the source uses:
   `0 > i`, `len(s) <= k`  ->  `i < 0`, `k >= len(s)`      (a numeric literal or len(..) on the left of an ordering
                                                           comparison moves to the right)
   `return A if c else B`  ->  `if c: return A` / `return B`
+  `if a: if b: X` (no else on either, nothing else in the outer body)  ->  `if a and b: X`
+  `t = E` directly followed by `return t`, t read nowhere else        ->  `return E`
   `if c: A else: R` where A always leaves (return / raise / continue / break, also through a nested if/else)
                          ->  `if c: A` followed by R     (so "early exit" and "else after return" are one shape, and an
                                                           elif chain of returning arms is a sequence of ifs)
@@ -20,6 +22,13 @@ import ast
 class Normalise(ast.NodeTransformer):
     def visit_If(self, n):
         self.generic_visit(n)
+        while not n.orelse and len(n.body) == 1 and isinstance(n.body[0], ast.If) and not n.body[0].orelse:
+            inner = n.body[0]
+            n.test = ast.copy_location(ast.BoolOp(op=ast.And(), values=(
+                (n.test.values if isinstance(n.test, ast.BoolOp) and isinstance(n.test.op, ast.And) else [n.test]) +
+                (inner.test.values if isinstance(inner.test, ast.BoolOp) and isinstance(inner.test.op, ast.And)
+                 else [inner.test]))), n.test)
+            n.body = inner.body
         if n.orelse and not (len(n.orelse) == 1 and isinstance(n.orelse[0], ast.If)) \
                 and isinstance(n.test, ast.UnaryOp) and isinstance(n.test.op, ast.Not):
             n.test, n.body, n.orelse = n.test.operand, n.orelse, n.body
@@ -139,7 +148,50 @@ def _flatten_node(node):
         pass
 
 
+def _inline_return_temps(fn):
+    """`t = E; return t` -> `return E` when every read of t in the function is such a return"""
+    loads = {}
+    for n in ast.walk(fn):
+        if isinstance(n, ast.Name) and isinstance(n.ctx, ast.Load):
+            loads[n.id] = loads.get(n.id, 0) + 1
+    pairs = {}
+
+    def scan(stmts, apply):
+        out = []
+        i = 0
+        while i < len(stmts):
+            st = stmts[i]
+            nxt = stmts[i + 1] if i + 1 < len(stmts) else None
+            if isinstance(st, ast.Assign) and len(st.targets) == 1 and isinstance(st.targets[0], ast.Name) \
+                    and isinstance(nxt, ast.Return) and isinstance(nxt.value, ast.Name) \
+                    and nxt.value.id == st.targets[0].id:
+                t = st.targets[0].id
+                if apply is None:
+                    pairs[t] = pairs.get(t, 0) + 1
+                elif t in apply:
+                    out.append(ast.copy_location(ast.Return(value=st.value), st))
+                    i += 2
+                    continue
+            for fld in ("body", "orelse", "finalbody"):
+                v = getattr(st, fld, None)
+                if isinstance(v, list) and v and isinstance(v[0], ast.stmt) and not isinstance(st, (ast.FunctionDef, ast.ClassDef)):
+                    setattr(st, fld, scan(v, apply))
+            if isinstance(st, ast.Try):
+                for h in st.handlers:
+                    h.body = scan(h.body, apply)
+            out.append(st)
+            i += 1
+        return out
+
+    scan(fn.body, None)
+    ok = {t for t, k in pairs.items() if loads.get(t, 0) == k}
+    if ok:
+        fn.body = scan(fn.body, ok)
+
+
 def normalise(tree):
+    for fn in [n for n in ast.walk(tree) if isinstance(n, (ast.FunctionDef, ast.AsyncFunctionDef))]:
+        _inline_return_temps(fn)
     Normalise().visit(tree)
     tree.body = _flatten_block(tree.body)
     ast.fix_missing_locations(tree)
